@@ -348,11 +348,22 @@ def stalled_peer_case(ctx, case):
             release.wait(20)
             self.data += bytes(b)
     stalled = Stalled()
-    ta = threading.Thread(target=lambda: U.send(case['m'], stalled),
-                          daemon=True)
+    first = {}
+
+    def a():
+        try:
+            U.send(case['m'], stalled)
+        except Exception as e:
+            first['exc'] = e
+            entered.set()
+    ta = threading.Thread(target=a, daemon=True)
     ta.start()
-    if not entered.wait(5):
+    if not entered.wait(5) or 'exc' in first:
         release.set()
+        if 'exc' in first:
+            ctx.fail('stalled_peer', 'S1-encode-raises', case,
+                     exc=first['exc'])
+            return
         from vlib.core import HarnessError
         raise HarnessError('C03 stalled_peer: the stalled writer never '
                            'reached send()')
